@@ -3,9 +3,18 @@
 #![allow(dead_code)]
 
 mod c01;
+mod cfgmut;
 mod common;
+mod defs;
+mod feed;
+mod ieng;
+mod meng;
+mod refm;
 mod rng;
+mod sched;
 mod simfmt;
+mod sut;
+mod tracked;
 
 use common::{replay_check, run_check, selfcheck_determinism, Tier};
 
@@ -40,6 +49,12 @@ fn main() {
 	}
 	let code = match args[1].as_str() {
 		"C01" => dispatch!(c01::C01, args),
+		"C02" => dispatch!(defs::DefCheck { id: "C02", suts: defs::C02_SUTS }, args),
+		"C03" => dispatch!(defs::DefCheck { id: "C03", suts: defs::C03_SUTS }, args),
+		"C04" => dispatch!(defs::DefCheck { id: "C04", suts: defs::C04_SUTS }, args),
+		"C14" => dispatch!(defs::DefCheck { id: "C14", suts: defs::C14_SUTS }, args),
+		"C09" => dispatch!(sched::SchedCheck { id: "C09" }, args),
+		"C13" => dispatch!(sched::SchedCheck { id: "C13" }, args),
 		"selfcheck-determinism" => {
 			common::silence_panics();
 			let mut ok = true;
